@@ -288,6 +288,9 @@ def run_c17(tier, seed, replay):
             found = dict(common.VERDICT_RE.findall(out))
             for e in doc["events"]:
                 verdicts[e["id"]] = ["T"] if e["id"] in found else ["F"]
+    ga, da = common.mode_a("MC_Cli.tla", "MC_Cli.cfg", wd, workers=4)
+    stats["states"] += ga
+    stats["distinct"] += da
     byid = {e["id"]: e for e in events}
     import runner
     import collections
@@ -295,6 +298,7 @@ def run_c17(tier, seed, replay):
     samples = [{"args": e["args"], "scenario": e["scenario"], "formula_file": e["raw_lines"], "stdout_events": e["events"][:12], "exit": e["exit"]} for e in events[:3]]
     return runner.report("C17", tier, seed, t0, [{"id": e["id"], "kinds": ["c17"], "text": " ".join(e["args"])} for e in events], verdicts, ["c17"], stats,
                          {"samples": samples, "scenarios": {"%s/%s" % k: v for k, v in hist.items()},
+                          "mode_A_cli": {"module": "spec/MC_Cli.tla", "states": da, "invariants": "InOrder, FailQuiet, Complete; liveness Terminates"},
                           "rule": "seeded runs of the hctl-model-checker binary built from the working tree: model as aeon / bnet / sbml, formula files with comment / blank / indented lines, every print option, optional -o and -e archives, and failure scenarios; stdout lines consumed path-wise by TLC against the state machine of spec/Cli.tla (spec/Trace_Cli.tla); a run without an accepting state is rejected"},
                          ASSUME_CLI, lambda it, failed: {"property": "C17", "failed_judgements": failed, "recorded": byid[it["id"]]})
 
